@@ -107,7 +107,22 @@ def run(tier, seed, jobs) -> Result:
             labels[k] = labels.get(k, 0) + v
         if len(samples) < 3:
             samples.append({"history": r["history"], "crash_points": r["points"], "distinct_states_booted": r["booted"]})
+    # the process dies after commands of two sessions overlapped: UIDVALIDITY counter (two mailboxes created at the same time,
+    # under every schedule with <=1 (thorough 2) deviations, kill, restart, delete + create again)
+    from ..explore import sched
+
+    ck = {"name": "create|create;kill;recreate", "cfg_ref": ["vf.props.c11", "cfg", ["basic"]], "prelude": [{"s": "A", "op": "select", "m": "INBOX"}], "loopopts": {"preempt_timers": False},
+          "concurrent": {"A": [{"s": "A", "op": "create", "m": "n1"}], "B": [{"s": "B", "op": "create", "m": "n2"}]},
+          "epilogue_recreate": {"names": ["n1", "n2"], "how": "kill"}}
+    r = sched.explore(ck, 1 if tier == "quick" else 2, jobs, seed, max_exec=30000)
+    for f in r["failures"]:
+        if f.rule.startswith("C02.uidvalidity"):
+            f.rule = "C11.uidvalidity-reused-after-crash"
+            res.failures.append(f)
+    pts += r["executions"]
+    booted += r["executions"]
     res.coverage = {
+        "schedule_part": [{"scenario": ck["name"], "executions": r["executions"], "bound": r["bound_completed"], "cap": r["cap"]}],
         "evaluations": pts,
         "distinct_nontrivial": booted,
         "rule": "one crash point before and after every DB operation and every audited folder mutation of every step of each history; "
@@ -120,7 +135,8 @@ def run(tier, seed, jobs) -> Result:
     res.assumptions = [
         "process death at Python-call / DB-operation granularity (kill -9): unflushed Python buffers and uncommitted SQLite pages are lost, OS-level writes are kept; "
         "not power loss, no torn sectors; SQLite's own atomicity (journal) is trusted",
-        "histories run under the default schedule, one session",
+        "histories run under the default schedule, one session; plus one two-session scenario (CREATE | CREATE) under every schedule with <=1 (thorough 2) deviations, "
+        "killed afterwards, restarted, each name deleted and created again: its UIDVALIDITY must be larger than the one a client saw before",
         "acknowledged = tagged OK emitted before the crash point; the in-flight command may or may not have taken effect",
     ]
     return res
@@ -128,5 +144,15 @@ def run(tier, seed, jobs) -> Result:
 
 def replay(rec):
     rp = rec["replay"]
+    if rp.get("driver") == "s":
+        from ..explore import sched
+
+        _p, _n, _sig, fails, _st = sched.run_one((rp["scenario"], rp["choices"]))
+        out = []
+        for f in fails:
+            if f.rule.startswith("C02.uidvalidity"):
+                f.rule = "C11.uidvalidity-reused-after-crash"
+                out.append(f)
+        return out
     r = crash.crash_history((rp["cfg_ref"], rp["history"]))
     return [f for f in r["fails"] if f.replay.get("point") == rp.get("point")] or r["fails"]
